@@ -8,7 +8,7 @@
     Grammar (EVOware script commands as written into a worklist, documented parameter order):
       B;Aspirate(<mask>,"<liquid class>",<slot 1>,...,<slot 8>,0,0,0,0,<grid>,<site>,1,"<selection>",0,<arm>);
       B;Dispense(  the same  );
-        a slot is  0  (tip unused) or  "<digits>.<one or two digits>"  (microlitres)
+        a slot is  0  (tip unused) or  "<digits>.<one or two digits>"  or  "<digits>"  (microlitres)
       B;Wash(<mask>,<waste grid>,<waste site>,<cleaner grid>,<cleaner site>,"<waste vol>",<waste delay>,
              "<cleaner vol>",<cleaner delay>,<airgap>,<airgap speed>,<retract speed>,<fastwash>,<low volume>,
              1000,<arm>);
@@ -68,9 +68,10 @@ Definition unquote (s : string) : option string :=
 Definition parse_nat_field (s : string) : option Z :=
   match parse_decN s with Some n => Some (Z.of_N n) | None => None end.
 
-(** "ddd.d" or "ddd.dd": the number of hundredths *)
+(** "ddd.d" or "ddd.dd" or "ddd": the number of hundredths *)
 Definition parse_hundredths (s : string) : option N :=
   match split_on "."%char s with
+  | [ip] => match parse_decN ip with Some i => Some (100 * i)%N | None => None end
   | [ip; fp] =>
       match parse_decN ip with
       | Some i =>
